@@ -272,7 +272,8 @@ fn run_clone(ctx: &mut Ctx, cell: u32) {
     }
     let after = scen::get_file("out.bin");
     let (opened, touched) = sys::with(|s| {
-        let opened = s.events_for("out.bin").any(|e| e.op == sys::Op::Open);
+        // "no output file is created": an open that may create the path while it is absent
+        let opened = s.events_for("out.bin").any(|e| e.op == sys::Op::Open && e.a & libc::O_CREAT as i64 != 0 && e.ret >= 0);
         let touched = s.events_for("out.bin").any(|e| (e.op == sys::Op::Write && e.ret > 0) || (e.op == sys::Op::Truncate && e.ret == 0) || (e.op == sys::Op::Open && e.a & libc::O_TRUNC as i64 != 0 && e.ret >= 0));
         s.path_mut("out.bin").fake_blockdev = false;
         (opened, touched)
@@ -325,8 +326,8 @@ fn run_clone(ctx: &mut Ctx, cell: u32) {
             ctx.fail("refusal-touched-output", format!("clone refused ({}) but wrote to / truncated the output; {}", r.outcome.short(), desc));
             return;
         }
-        if archive_refusal && opened {
-            ctx.fail("refusal-opened-output", format!("clone refused the archive ({}) but had already opened the output path; {}", r.outcome.short(), desc));
+        if archive_refusal && opened && prior.is_none() {
+            ctx.fail("refusal-created-output", format!("clone refused the archive ({}) but had created the output path on the way (even if it is gone again); {}", r.outcome.short(), desc));
             return;
         }
         simkit::count(if archive_refusal {
